@@ -29,6 +29,11 @@ CLAIMS={
    design="§3 C09, §2 R1/R3",
    note="Trusted: go/types+go/ssa; store forwarding through pointer parameters assumes no second alias to the same MTP/Pool inside one function (DESIGN §7). Frozen: Borrow's `return nil` on UpdateCustody error (latent).",
    technique="static analysis: symbolic delta cancellation with bool-signed helper summaries, helper body-shape check, must-pass-through queries on the success-exit CFG"),
+ "C12":dict(
+   text="Linear invariant commitment Params.TotalCommitted − Σ accounts' committed = 0 decided for every consensus-reachable function: updates of TotalCommitted (old.Add/Sub and the saturating helper subTotalCommitted, body shape checked) and calls of Commitments.AddCommittedTokens / DeductFromCommitted on the same success paths must cancel symbolically; the updated params must reach SetParams and must not be a stale write-back over a callee's own params update. Custody: CommitLiquidTokens pairs the transfer into the module account with the committed amount; UncommitTokens releases custody only after a successful deduction, to the uncommitting account, in the uncommitted amount. Lock-ups: DeductFromCommitted's success exits carry ¬(new amount < 0) ∧ ¬(locked > new amount), a lock-up is kept exactly under unlock > now ∧ ¬isLiquidation, AddCommittedTokens records lock-ups of exactly the committed amount, and the constant true reaches the isLiquidation parameter chain only from the leveragelp liquidation. One known finding (F-12a) is reported as KNOWN-FINDING. Denoms are not distinguished by the amount algebra; Σ over accounts as a number is not decided.",
+   design="§3 C12, §2 R1/R3/R6",
+   note="Trusted: go/types+go/ssa; bank keeper. Known finding F-12a (UncommitTokens adds to TotalCommitted) listed in known_findings.json, cannot be repaired without editing two masterchef tests that pin the defective value.",
+   technique="static analysis: symbolic delta cancellation over go/ssa, helper body-shape checks, must-hold facts, interprocedural constant flow of a bool parameter over the call graph"),
 }
 NA={}
 checks=[]
